@@ -46,7 +46,7 @@ from oracles.o2_common import np  # noqa: E402
 import objectives  # noqa: E402
 import impl as implmod  # noqa: E402
 
-RULE = ("A: case = (objective spec, box, N in 1..4, eps, r, itersLimit in 1..60, density, refineSolution 20%, listener "
+RULE = ("late: 60/600 cases in which a passive recording listener (OnEndIteration / OnMethodStop) is attached after 1..3 DoGlobalIteration calls and must from then on be told what a listener attached from the start is told. A: case = (objective spec, box, N in 1..4, eps, r, itersLimit in 1..60, density, refineSolution 20%, listener "
         "subsets (1..3 listeners, each a subset mask 0..15 of overridden callbacks, in 30% of the cases partly inherited from an "
         "intermediate class; 2% long runs of 450/700 trials), batching of 1..6 calls); every 16th "
         "case cycles deterministically through all 16 masks so that each subset is attached alone at least once; "
@@ -393,6 +393,49 @@ def check_report(rep, true, viol, i):
         viol.append({"what": "console final report differs from the returned solution", "op_index": i, "fields": bad})
 
 
+def gen_case_late(r):
+    """a passive listener (OnEndIteration / OnMethodStop only: nothing it needs is set up in BeforeMethodStart) is attached to a search that
+    has already started; from then on it must be told what a listener attached from the start is told"""
+    n = r.choice([1, 1, 2, 3])
+    lo, hi = oc.gen_box(r, n)
+    params = {"eps": r.choice([0.1, 0.05, 0.01, 0.003]), "r": round(r.uniform(1.5, 5), 2), "itersLimit": r.choice([9, 17, 30, 60]),
+              "evolventDensity": r.randint(3, min(12, 50 // n)), "refineSolution": r.random() < 0.2}
+    ops = ["I%d" % r.choice([1, 2, 3, 5]) for _ in range(r.randint(1, 3))]
+    at = len(ops)
+    ops += ["I%d" % r.choice([1, 2, 3]) for _ in range(r.randint(0, 2))] + ["S"] + (["I2", "S"] if r.random() < 0.3 else [])
+    return {"part": "late", "spec": objectives.gen_spec(r, n), "lower": lo, "upper": hi, "params": params, "ops": ops, "attach_at": at,
+            "mask": r.choice([2, 4, 6, 6])}
+
+
+def run_case_late(case):
+    prob, sv = make_solver(case)
+    ev_e, ev_l = [], []
+    ctx = {"problem": prob, "solver": sv, "op": -1, "eq_all": False}
+    sv.AddListener(make_listener_class(case["mask"], ev_e, 0, ctx, 0)())
+    at = case["attach_at"]
+    recs = drive(dict(case, ops=case["ops"][:at]), sv, prob, ctx)
+    if any(rec["raised"] for rec in recs):
+        return [], {"skipped": "raises before the late listener is attached"}
+    n_e = len(ev_e)
+    try:
+        sv.AddListener(make_listener_class(case["mask"], ev_l, 1, ctx, 0)())
+    except Exception as e:     # noqa: BLE001
+        return [{"what": "attaching a listener to a started search raised", "error": f"{type(e).__name__}: {e}"}], {}
+    recs2 = drive(dict(case, ops=case["ops"][at:]), sv, prob, ctx)
+    if any(rec["raised"] for rec in recs2):
+        return [{"what": "a call raised after a passive listener was attached to a started search",
+                 "error": [rec["raised"] for rec in recs2 if rec["raised"]][0]}], {}
+    want = [(e["cb"], e.get("points")) for e in ev_e[n_e:]]
+    got = [(e["cb"], e.get("points")) for e in ev_l]
+    viol = []
+    if got != want:
+        k = next((i for i, (a_, b_) in enumerate(zip(got, want)) if a_ != b_), min(len(got), len(want)))
+        viol.append({"what": "a listener attached to a started search is not told what a listener attached from the start is told from then on",
+                     "attached_before_op": at, "first_difference_at_event": k, "late": [list(x) for x in got[k:k + 2]],
+                     "early": [list(x) for x in want[k:k + 2]], "events_late": len(got), "events_early_since": len(want)})
+    return viol, {"trials": len([e for e in prob.log if e[0] == "global"]), "events": len(ev_e) + len(ev_l)}
+
+
 def gen_case_console(r):
     case = gen_case_a(r, 1)
     case.pop("fail_at", None)
@@ -610,7 +653,7 @@ def run(tier, r):
     nc = 400 if tier == "quick" else 3000
     npaint = 48 if tier == "quick" else 320
     viol, samples, known = [], [], []
-    stats = {"A": 0, "console": 0, "paint": 0, "masks_alone": {}, "masks_any": {}, "dims": {}, "trials": 0, "events": 0,
+    stats = {"A": 0, "console": 0, "paint": 0, "late": 0, "masks_alone": {}, "masks_any": {}, "dims": {}, "trials": 0, "events": 0,
              "skipped": [], "with_injected_failure": 0, "console_modes": {}, "reports_checked": 0, "painters": {},
              "painter_objective_evaluations": 0, "figures_written": 0, "mlp_capped": tier == "quick"}
     explored = nontriv = 0
@@ -653,6 +696,12 @@ def run(tier, r):
         stats["reports_checked"] += info.get("reports", 0)
         if len(samples) < 2:
             samples.append(case)
+    for i in range(60 if tier == "quick" else 600):
+        if bud.over() or len(viol) >= 14:
+            break
+        case = gen_case_late(r)
+        v, info = run_case_late(case)
+        record(case, v, info, info.get("trials", 0) >= 2)
     try:
         stats["probe_DoGlobalIteration0_with_shipped_listeners"] = probe_k0()
     except Exception as e:     # noqa: BLE001
@@ -683,7 +732,7 @@ def run(tier, r):
 
 def _replay_here(case):
     c = case["case"]
-    v, info = {"A": run_case_a, "console": run_case_console, "paint": run_case_paint}[c["part"]](c)
+    v, info = {"A": run_case_a, "console": run_case_console, "paint": run_case_paint, "late": run_case_late}[c["part"]](c)
     v = v + info.get("known", [])
     same = [x for x in v if x["what"] == case.get("what")]
     return {"reproduced": bool(same), "detail": [{k: x[k] for k in x if k != "case"} for x in (same or v)[:2]]}
